@@ -1510,8 +1510,10 @@ impl Model {
                 }
             },
             Op::HFlush { h } => {
-                if let Some(MH::Write { buf, synced, flushed, .. }) = self.hs[*h].as_mut() {
-                    if out.is_ok() {
+                if let Some(MH::Write { path, buf, synced, flushed, .. }) = self.hs[*h].as_mut() {
+                    // data counts as written only when there was a file to take it
+                    let was_file = pre.nodes.get(path.as_str()).map(|n| n.kind == Kind::File).unwrap_or(false);
+                    if out.is_ok() && was_file {
                         *synced = buf.len();
                         *flushed = true;
                     }
